@@ -338,9 +338,10 @@ theorem metadata_roundtrip (v : Spec.MetadataResp) (e : List (Int × BrokerMeta)
       (fun t htm => ⟨hat.2 t htm, List.all_eq_true.mp htasc t.2.1 (List.mem_map.mpr ⟨t, htm, rfl⟩), List.all_eq_true.mp hpnd t htm⟩)
       (by rw [henc]; simp only [List.append_assoc, List.append_nil])
     have hmax : ¬ ((brokers.length : Int) > maxBrokers) := by
-      have : maxBrokers = 1024 := by decide
+      -- only `1024 ≤ MAX_BROKERS` is needed: raising the limit in the source keeps the theorem
+      have hge : (1024 : Int) ≤ (maxBrokers : Int) := by decide
       have hl : brokers.length ≤ 1024 := hlim
-      rw [this]; omega
+      omega
     have r := metadata_steps
       (ru2_ii_at0 (data := data) (rest := encAll brokerCodec brokers ++ (ofIntBE 4 (topics.length : Int) ++ encAll topicCodec topics))
         (by rw [henc]; simp only [List.append_assoc]) (v32 h1.1) hab.1)
